@@ -428,5 +428,5 @@ def stages(tier):
     q = tier == "quick"
     return [
         EnumStage("table", table_cases(tier), shards=8 if q else 16, scope="every name of the typedef table with an expectation row x endian in {<,>,!}; exhaustive values for 8-bit" + ("" if q else " and 16-bit") + " integers, all chars, BMP code units" + (" (every 37th)" if q else " (all)")),
-        HypStage("history", history_case, examples=2000 if q else 12000, shards=6 if q else 16),
+        HypStage("history", history_case, examples=2000 if q else 30000, shards=6 if q else 16),
     ]
